@@ -3,6 +3,7 @@ import Sqfs.Model.Obj
 import Sqfs.Model.ObjKinds
 import Sqfs.Model.C19Readers
 import Sqfs.Model.RbTree
+import Sqfs.Model.C19Pool
 import Sqfs.Model.C19Units
 /-!
 `sqfsmodel c19 describe <kind>` / `describe-current <kind>`: the per-kind facts of the hook descriptions.
@@ -532,6 +533,90 @@ def unitStep (w : UWorld) (line : String) : UWorld × String :=
       | _, _, _ => (w, "bad-op")
   | _ => (w, "bad-op")
 
+/-! ### `unit-pool`: the `rbt` unit scenarios against /repo's default configuration (nodes from a pool allocator, one pool per
+tree): trees live in a `PStore`; `copy` = `rbCopyP` (own pool, every node of the copy from it), `drop` = `rbCleanupP` (the pool
+is unmapped: every node allocated from it is gone), every later answer is read back from the store — a copy whose nodes had
+come from the original's pool would answer `crash` after `drop o`. -/
+
+open Sqfs.Rb in
+structure PWorld where
+  cfg : Cfg
+  ps : PStore
+  objs : List (Option (Option Nat × Nat))     -- o, c: (root, pool)
+
+open Sqfs.Rb in
+def PWorld.init : PWorld := ⟨⟨0, 0, 0⟩, PStore.empty, [none, none]⟩
+
+open Sqfs.Rb Sqfs.Consts in
+def poolStep (w : PWorld) (line : String) : PWorld × String :=
+  let fuel := w.ps.st.next + 1
+  let rd (r : Option Nat) : Option Tree := readTree w.ps.st.cells fuel r
+  match words line with
+  | ["scenario", _, "rbt", ks, vs] =>
+    match ks.toNat?, vs.toNat? with
+    | some ks, some vs =>
+      match init ks vs with
+      | some c => (⟨c, PStore.empty.createPool.1, [some (none, PStore.empty.createPool.2), none]⟩, "scenario")
+      | none => (PWorld.init, "bad-op")
+    | _, _ => (PWorld.init, "bad-op")
+  | ["end"] => (PWorld.init, "end")
+  | "copy" :: _ | "failcopy" :: _ =>
+    let k : Option Nat := match words line with
+      | ["failcopy", ks] => ks.toNat?
+      | _ => none
+    match ((w.objs[0]?).join : Option (Option Nat × Nat)), ((w.objs[1]?).join : Option (Option Nat × Nat)) with
+    | some (root, pool), none =>
+      -- acquisitions of `rbtree_copy` in this configuration: 1 = `calloc` of the `mem_pool_t` (rbtree.c:212: error, `out` not
+      -- cleared), 2 = `mmap` of the pool's first block inside the first `mem_pool_allocate` (if there is a node to copy:
+      -- `copy_node` fails, `out` cleared)
+      if k = some 1 then (w, s!"copy {c19ErrAlloc} zeroed=0 failed=calloc")
+      else if k = some 2 ∧ root.isSome then (w, s!"copy {c19ErrAlloc} zeroed=1 failed=mmap")
+      else match rbCopyP w.cfg fuel w.ps root with
+        | none => (w, "crash")
+        | some (ps', root', pool') =>
+          let own := if pool' = pool then "alias" else "own"
+          let nodes := if ownedB ps'.st.cells ps'.owner pool' (ps'.st.next + 1) root' then "in" else "out"
+          ({ w with ps := ps', objs := w.objs.set 1 (some (root', pool')) }, s!"copy 0 kp={w.cfg.keyPad} alias=0 pool={own} nodes={nodes}")
+    | _, _ => (w, "bad-op")
+  | ["drop", t] =>
+    match uIx t with
+    | some i =>
+      match ((w.objs[i]?).join : Option (Option Nat × Nat)) with
+      | some (_, pool) => ({ w with ps := rbCleanupP w.ps pool, objs := w.objs.set i none }, "drop")
+      | none => (w, "no-object")
+    | none => (w, "bad-op")
+  | t :: op :: args =>
+    match uIx t with
+    | none => (w, "bad-op")
+    | some i =>
+      match ((w.objs[i]?).join : Option (Option Nat × Nat)), op, args with
+      | none, _, _ => (w, "no-object")
+      | some (root, pool), "ins", [k, v] =>
+        match fromHex k, fromHex v with
+        | some k, some v =>
+          match rd root with
+          | none => (w, "crash")
+          | some tr =>
+            let r := writeTreeP w.ps pool (insert w.cfg (fun a b => memCmp w.cfg a b == .lt) tr k v)
+            ({ w with ps := r.1, objs := w.objs.set i (some (r.2, pool)) }, "ins 0")
+        | _, _ => (w, "bad-op")
+      | some (root, _), "look", [k] =>
+        match fromHex k with
+        | some k =>
+          match rd root with
+          | none => (w, "crash")
+          | some tr =>
+            match tr.lookup (memCmp w.cfg) k with
+            | some n => (w, s!"look {n.1} {toHexTok n.2} key={toHexTok (keyOf w.cfg n)} value={toHexTok (valueOf w.cfg n)}")
+            | none => (w, "look none")
+        | none => (w, "bad-op")
+      | some (root, _), "dump", [] =>
+        match rd root with
+        | none => (w, "crash")
+        | some tr => (w, s!"dump ks={w.cfg.keySize} kp={w.cfg.keyPad} vs={w.cfg.valueSize} wf={if wfTreeB w.cfg tr then 1 else 0} tree={treeTok tr}")
+      | _, _, _ => (w, "bad-op")
+  | _ => (w, "bad-op")
+
 def run (args : List String) : IO Unit := do
   let out ← IO.getStdout
   match args with
@@ -549,6 +634,7 @@ def run (args : List String) : IO Unit := do
   | ["tbl"] => stateLoop (← IO.getStdin) out Kinds.tblStep Kinds.TblWorld.init
   | ["copystate"] => lineLoop (← IO.getStdin) out copyStep
   | ["unit"] => stateLoop (← IO.getStdin) out unitStep UWorld.init
+  | ["unit-pool"] => stateLoop (← IO.getStdin) out poolStep PWorld.init
   | _ => stateLoop (← IO.getStdin) out (step desc) World.init
 
 end Driver.C19
